@@ -8,6 +8,7 @@
 -/
 import Generated.DistSrcRun
 import Generated.SparseSrcRun
+import Generated.LayoutSrcRun
 
 open Umap SrcRun
 
@@ -52,7 +53,8 @@ def step (line : String) : String :=
   match parseArgs t with
   | some a =>
     let r := run t[0]! a
-    " ".intercalate (if r == ["bad-op"] then runSparse t[0]! a else r)
+    let r := if r == ["bad-op"] then runSparse t[0]! a else r
+    " ".intercalate (if r == ["bad-op"] then runLayout t[0]! a else r)
   | none => "bad-op"
 
 partial def loop (h : IO.FS.Stream) : IO Unit := do
